@@ -1,6 +1,7 @@
 """C19 — reported bit-flip candidates are genuine single-bit neighbours in mapped memory."""
 from .common import *
 import panics
+import normal
 
 PID = 'C19'
 TBF = 'minidump_processor::processor::bitflip::try_bit_flips'
@@ -136,6 +137,10 @@ def mapped_or_null(res, prog, c, f):
             res.sample({'rule': 'C19.2', 'guard': 'null' if null else 'mapped+allowed'})
 
 
+def _is_cpu(x):
+    return isinstance(x, tuple) and len(x) == 3 and x[0] == 'field' and x[2] == 'cpu' and 'system_info' in str(x[1])
+
+
 def gates(res, prog, c, f):
     res.rule('C19.3', 0, floor=4, note='no attempt on 32-bit or ARM64 dumps, for null-pointer-with-offset, or when the examined address is itself accessible')
     g = need_fn(res, c, CHECK, 'C19.3')
@@ -145,14 +150,18 @@ def gates(res, prog, c, f):
             res.error('C19.3', 'check_for_bitflips does not call try_bit_flips')
         for b, t in calls:
             res.rule('C19.3', 1)
-            facts = [r for r, gd, s in panics.dominating_facts(g, b)]
-            sf = [(r[0], show(g.expand(r[1])) if len(r) > 1 else '', show(g.expand(r[2])) if len(r) > 2 and isinstance(r[2], tuple) else (r[2] if len(r) > 2 else '')) for r in facts]
-            w64 = any(k == 'eq' and 'pointer_width' in a and 'Bits64' in str(bb) for k, a, bb in sf)
-            notarm = any(k == 'ne' and 'cpu' in a and 'Arm64' in str(bb) for k, a, bb in sf)
-            if not w64:
-                res.violation('C19.3', 'C19.3|width', g, t.get('line'), 'try_bit_flips is not dominated by the `pointer_width() != Bits64 => return` gate')
-            if not notarm:
-                res.violation('C19.3', 'C19.3|arm64', g, t.get('line'), 'try_bit_flips is not dominated by the `cpu == Arm64 => return` gate')
+            # which CPUs reach the attempt, whatever the spelling of the two gates (`!=`, `matches!`, `match`, a local copy)
+            ms = prog.crate('minidump')
+            pw, cpu = ms.adts.get('minidump::system_info::PointerWidth'), ms.adts.get('minidump::system_info::Cpu')
+            if not pw or not cpu:
+                res.error('C19.3', 'enums PointerWidth / Cpu not found')
+                continue
+            gw, nw = normal.variants_reaching(g, pw, lambda x: isinstance(x, tuple) and x[0] == 'call' and str(x[1]).endswith('pointer_width'), [b])
+            gc, nc_ = normal.variants_reaching(g, cpu, _is_cpu, [b])
+            if gw != {'Bits64'}:
+                res.violation('C19.3', 'C19.3|width', g, t.get('line'), 'try_bit_flips must be attempted for 64-bit CPUs only; it is reached for pointer widths %s' % sorted(gw))
+            if 'Arm64' in gc or 'X86_64' not in gc:
+                res.violation('C19.3', 'C19.3|arm64', g, t.get('line'), 'try_bit_flips must not be attempted on ARM64 (and must be on x86-64); it is reached for %s' % sorted(gc))
         # selector: NullPointerWithOffset => None
         res.rule('C19.3', 1)
         ex = PathExplorer(g, keep=lambda cnd: 'adjusted_address' in show(cnd) or 'cpu' in show(cnd), track=[])
@@ -161,6 +170,7 @@ def gates(res, prog, c, f):
         aa = prog.crate('minidump_processor').adts.get('minidump_processor::process_state::AdjustedAddress')
         names = {v.get('discr', i): v['name'] for i, v in enumerate(aa['variants'])} if aa else {}
         sel = {}
+        plain_sites = []
         for b in sorted(g.reach):
             for s in g.blocks[b]['s']:
                 if s['k'] == 'assign' and g.local_name(s['lhs']['l']) == 'bit_flip_address' and not s['lhs'].get('p'):
@@ -175,6 +185,8 @@ def gates(res, prog, c, f):
                                     which = ('some', names.get(v, v))
                         cpu = [v for cnd, v in facts if 'X86_64' in show(cnd) or 'cpu' in show(cnd) and isinstance(v, bool)]
                         sel.setdefault(str(which), set()).add(show(tree))
+                        if which == ('opt', 0) and (b, g.rvalue_tree(s['rv'])) not in plain_sites:
+                            plain_sites.append((b, g.rvalue_tree(s['rv'])))
         flat = ' '.join(sorted(x for v in sel.values() for x in v))
         nul = [v for k, v in sel.items() if 'NullPointerWithOffset' in k]
         if not nul or not all('Option::None' in x for x in nul[0]):
@@ -182,18 +194,22 @@ def gates(res, prog, c, f):
         nc = [v for k, v in sel.items() if 'NonCanonical' in k]
         if not nc or not all('Amd64NonCanonical' in x for x in nc[0]):
             res.violation('C19.3', 'C19.3|noncanonical', g, g.line, 'AdjustedAddress::NonCanonical does not select the high bit range: %s' % sel)
-        # the range chosen for an unadjusted address: All unless the CPU is x86-64
-        chosen = {}
-        for b in sorted(g.reach):
-            for s in g.blocks[b]['s']:
-                if s['k'] == 'assign' and s['rv']['k'] == 'agg' and s['rv'].get('ak') == 'adt' and s['rv']['adt'].endswith('bitflip::BitRange'):
-                    fs = [(r[0], show(r[1]), show(r[2]) if len(r) > 2 and isinstance(r[2], tuple) else '') for r, gd, sc in panics.dominating_facts(g, b)]
-                    chosen[s['rv']['variant']] = fs
-        all_ok = any(k == 'ne' and 'cpu' in a and 'X86_64' in bb for k, a, bb in chosen.get('All', []))
-        can_ok = any(k == 'eq' and 'cpu' in a and 'X86_64' in bb for k, a, bb in chosen.get('Amd64Canononical', []))
-        plain = [v for k, v in sel.items() if k == "('opt', 0)"]
-        if not (all_ok and can_ok and plain):
-            res.violation('C19.3', 'C19.3|plain', g, g.line, 'unadjusted addresses do not select All (non x86-64) / Amd64Canononical (x86-64): %s' % {k: v[:3] for k, v in chosen.items()})
+        # the range chosen for an unadjusted address: All unless the CPU is x86-64 - evaluated per variant of Cpu at the
+        # statement that builds the selection of the `adjusted_address == None` arm
+        cpu = prog.crate('minidump').adts.get('minidump::system_info::Cpu')
+        per = {}
+        for (pb, ptree) in plain_sites:
+            tr = g.expand(ptree)
+            ex2 = normal.VariantExplorer(g, cpu, _is_cpu, watch=normal.multi_def_leaves(g, tr))
+            for v in cpu['variants']:
+                if not any(bb == pb for (bb, _e) in ex2.states[v['name']]):
+                    continue
+                val = show(g.expand(normal.value_at(ex2, v['name'], pb, tr)))
+                m = re.search(r'BitRange::(\w+)', val)
+                per.setdefault(v['name'], set()).add(m.group(1) if m else val[:80])
+        bad = dict((k, sorted(v)) for k, v in per.items() if v != ({'Amd64Canononical'} if k == 'X86_64' else {'All'}))
+        if not plain_sites or not per or bad:
+            res.violation('C19.3', 'C19.3|plain', g, g.line, 'unadjusted addresses do not select All (non x86-64) / Amd64Canononical (x86-64): %s' % (bad or 'no selection found for the unadjusted address'))
         res.sample({'rule': 'C19.3', 'selector': {k: sorted(v) for k, v in sel.items()}})
     # early return when the examined address is accessible
     res.rule('C19.3', 1)
